@@ -448,8 +448,9 @@ class EOperation(ETypedElement):
             parameters.insert(0, 'self')
         norm_name = self.normalized_name()
         parameters = ', '.join(parameters)
+        message = f'Method {norm_name}({parameters}) is not yet implemented'
         return f"""def {norm_name}({parameters}):
-        raise NotImplementedError('Method {norm_name}({parameters}) is not yet implemented')
+        raise NotImplementedError({message!r})
         """ # noqa
 
 
@@ -461,7 +462,7 @@ class EParameter(ETypedElement):
         if self.required:
             return f"{self.name}"
         default_value = getattr(self.eType, 'default_value', None)
-        return f"{self.name}={default_value}"
+        return f"{self.name}={default_value!r}"
 
 
 class ETypeParameter(ENamedElement):
